@@ -57,7 +57,7 @@ def plan(prop: str, tier: str) -> Plan:
     n = len(fault_space())
     if tier == "quick":
         return Plan(shards=4, cases_per_shard=(n * 12 + 3) // 4, timeout_s=600)
-    return Plan(shards=16, cases_per_shard=(n * 400 + 15) // 16, timeout_s=3000)
+    return Plan(shards=16, cases_per_shard=(n * 3000 + 15) // 16, timeout_s=3000)
 
 
 def gen(r, fp: Dict[str, Any]) -> Dict[str, Any]:
